@@ -21,9 +21,9 @@ def main(argv):
     prop = importlib.import_module('pipesim.props.' + target)
     if argv[1] == '--replay':
         return runner.replay(prop, argv[2])
-    tier = os.environ.get('VERIF_TIER') or argv[1]
+    tier = argv[1]                       # the registered commands name their tier; VERIF_TIER is only a fallback
     if tier not in ('quick', 'thorough'):
-        tier = argv[1]
+        tier = os.environ.get('VERIF_TIER', 'quick')
     seed = int(os.environ.get('VERIF_SEED', '20260926'))
     return runner.run_check(prop, tier, seed)
 
